@@ -48,6 +48,8 @@ theorem Inv.weak {P : Env Val} {g : Heap → Val} {s : St Val} (hi : Inv P g s) 
   unfold compute; split <;> rfl
 @[simp] theorem compute_dyn (P : Env Val) (s : St Val) : (compute P s).2.dyn = s.dyn := by
   unfold compute; split <;> rfl
+@[simp] theorem compute_dynObj (P : Env Val) (s : St Val) : (compute P s).2.dynObj = s.dynObj := by
+  unfold compute; split <;> rfl
 @[simp] theorem compute_notes (P : Env Val) (s : St Val) : (compute P s).2.notes = s.notes := by
   unfold compute; split <;> rfl
 @[simp] theorem compute_nested (P : Env Val) (s : St Val) : (compute P s).2.nested = s.nested := by
@@ -61,6 +63,9 @@ theorem Inv.weak {P : Env Val} {g : Heap → Val} {s : St Val} (hi : Inv P g s) 
 @[simp] theorem readProp_dyn (P : Env Val) (s : St Val) : (readProp P s).2.dyn = s.dyn := by
   unfold readProp; repeat' split
   all_goals simp
+@[simp] theorem readProp_dynObj (P : Env Val) (s : St Val) : (readProp P s).2.dynObj = s.dynObj := by
+  unfold readProp; repeat' split
+  all_goals simp
 @[simp] theorem readProp_notes (P : Env Val) (s : St Val) : (readProp P s).2.notes = s.notes := by
   unfold readProp; repeat' split
   all_goals simp
@@ -72,6 +77,8 @@ theorem Inv.weak {P : Env Val} {g : Heap → Val} {s : St Val} (hi : Inv P g s) 
   simp [nestedRead]
 @[simp] theorem nestedRead_dyn (P : Env Val) (s : St Val) : (nestedRead P s).dyn = s.dyn := by
   simp [nestedRead]
+@[simp] theorem nestedRead_dynObj (P : Env Val) (s : St Val) : (nestedRead P s).dynObj = s.dynObj := by
+  simp [nestedRead]
 @[simp] theorem nestedRead_notes (P : Env Val) (s : St Val) : (nestedRead P s).notes = s.notes := by
   simp [nestedRead]
 @[simp] theorem nestedRead_cache (P : Env Val) (s : St Val) : (nestedRead P s).cache = (readProp P s).2.cache := by
@@ -82,6 +89,8 @@ theorem Inv.weak {P : Env Val} {g : Heap → Val} {s : St Val} (hi : Inv P g s) 
 @[simp] theorem popCache_heap (P : Env Val) (s : St Val) : (popCache P s).heap = s.heap := by
   unfold popCache; split <;> rfl
 @[simp] theorem popCache_dyn (P : Env Val) (s : St Val) : (popCache P s).dyn = s.dyn := by
+  unfold popCache; split <;> rfl
+@[simp] theorem popCache_dynObj (P : Env Val) (s : St Val) : (popCache P s).dynObj = s.dynObj := by
   unfold popCache; split <;> rfl
 @[simp] theorem popCache_notes (P : Env Val) (s : St Val) : (popCache P s).notes = s.notes := by
   unfold popCache; split <;> rfl
@@ -299,6 +308,8 @@ theorem step_inv (P : Env Val) (g : Heap → Val) (hG : PartialGetter P.G g)
   | read => exact readProp_inv P g hG s hi
   | attach => exact hi
   | detach => exact hi
+  | attachObj => exact hi
+  | detachObj => exact hi
   | construct ws => exact restore_inv P g hG hD hS hp _ _
   | copy => exact restore_inv P g hG hD hS hp _ _
 
